@@ -513,16 +513,21 @@ func (e *mpEnv) runPair(res *verifkit.Result, probe *rwProbe, g *aGraph, pc *pai
 		ann bool
 		r   int
 	}
-	expect := func(cur seen, reader bool) seen {
+	// (second result: can the call be held up by the gate at all?  Under the read gate a reader is only held up by a
+	// writer that has announced itself; otherwise it runs through, and only its return is waited for)
+	expect := func(cur seen, reader bool) (seen, bool) {
 		switch {
 		case reader:
-			cur.r++ // (under the read gate a reader only waits when a writer has announced itself; else it just runs)
+			if gateR && !cur.ann {
+				return cur, false
+			}
+			cur.r++
 		case gateR && !cur.ann:
 			cur.ann = true // first writer under the read gate: takes w, announces itself, waits for the harness to leave
 		default:
 			cur.w++
 		}
-		return cur
+		return cur, true
 	}
 	at := func(want seen) bool {
 		w, a, r := probe.waiting(mu)
@@ -530,8 +535,8 @@ func (e *mpEnv) runPair(res *verifkit.Result, probe *rwProbe, g *aGraph, pc *pai
 	}
 	cur := seen{}
 	go func() { r1 = f1(); atomic.StoreInt32(&d1, 1); close(done1) }()
-	want1 := expect(cur, rd1)
-	confirmed := waitFor(func() bool { return atomic.LoadInt32(&d1) == 1 || at(want1) }, patience)
+	want1, held1 := expect(cur, rd1)
+	confirmed := waitFor(func() bool { return atomic.LoadInt32(&d1) == 1 || held1 && at(want1) }, patience)
 	blocked1 := false
 	if confirmed && atomic.LoadInt32(&d1) == 0 {
 		blocked1, cur = true, want1
@@ -539,8 +544,8 @@ func (e *mpEnv) runPair(res *verifkit.Result, probe *rwProbe, g *aGraph, pc *pai
 	blocked2 := false
 	if confirmed {
 		go func() { r2 = f2(); atomic.StoreInt32(&d2, 1); close(done2) }()
-		want2 := expect(cur, rd2)
-		confirmed = waitFor(func() bool { return atomic.LoadInt32(&d2) == 1 || at(want2) }, patience)
+		want2, held2 := expect(cur, rd2)
+		confirmed = waitFor(func() bool { return atomic.LoadInt32(&d2) == 1 || held2 && at(want2) }, patience)
 		if confirmed && atomic.LoadInt32(&d2) == 0 {
 			blocked2, cur = true, want2
 		}
@@ -641,6 +646,7 @@ func runPairs(t *testing.T, res *verifkit.Result, in *mpInput, envs [][]*mpEnv) 
 	}
 	patience := 5 * time.Second
 	st := &pairStats{}
+	t0 := time.Now()
 	jobs := make(chan *pairCase, 1024)
 	var wg sync.WaitGroup
 	for w := range envs {
@@ -673,8 +679,8 @@ func runPairs(t *testing.T, res *verifkit.Result, in *mpInput, envs [][]*mpEnv) 
 	res.Extra["pairs_judged"] = st.judged
 	res.Extra["pairs_skipped"] = st.skipped
 	res.Extra["pairs_given"] = len(in.Pairs)
-	res.Note("lock-gated pairs: %d judged (%d matched only op1-then-op2, %d only op2-then-op1, %d both orders coincide; in %d a call returned before the lock), %d skipped",
-		st.judged, st.first1, st.first2, st.either, st.early, st.skipped)
+	res.Note("lock-gated pairs: %d judged (%d matched only op1-then-op2, %d only op2-then-op1, %d both orders coincide; in %d a call returned before the lock), %d skipped, %.1fs",
+		st.judged, st.first1, st.first2, st.either, st.early, st.skipped, time.Since(t0).Seconds())
 	n := 0
 	st.skipWhy.Range(func(k, v interface{}) bool {
 		if n < 5 {
